@@ -85,7 +85,10 @@ func DefaultFormatter(buf []byte, n Number, f Format) ([]byte, error) {
 	b.WriteString(toTens(r, f))
 	b.WriteString(toUnits(i, f))
 	if f&FormatLowerCase != 0 {
-		return toLower(b.Bytes()), nil
+		out := b.Bytes()
+		// lower-case only the numeral appended above, never the bytes the caller passed in
+		toLower(out[len(buf):])
+		return out, nil
 	}
 	return b.Bytes(), nil
 }
